@@ -201,11 +201,13 @@ pub struct TableGen {
     pub delay_pct: u64,
     pub null_pct: u64,
     pub sorted_by_k: bool,
+    /// out of 100: chance that a batch is forced to be empty (zero rows)
+    pub empty_pct: u64,
 }
 
 impl Default for TableGen {
     fn default() -> Self {
-        TableGen { parts: (1, 4), batches: (0, 6), rows: (0, 12), key_domain: 6, pending_pct: 25, delay_pct: 10, null_pct: 12, sorted_by_k: false }
+        TableGen { parts: (1, 4), batches: (0, 6), rows: (0, 12), key_domain: 6, pending_pct: 25, delay_pct: 10, null_pct: 12, sorted_by_k: false, empty_pct: 0 }
     }
 }
 
@@ -218,7 +220,8 @@ impl TableGen {
             // generate all rows of the partition first (so they can be sorted), then cut batches
             let mut sizes = vec![];
             for _ in 0..nb {
-                sizes.push(rng.range(self.rows.0, self.rows.1));
+                let n = rng.range(self.rows.0, self.rows.1);
+                sizes.push(if self.empty_pct > 0 && rng.below(100) < self.empty_pct { 0 } else { n });
             }
             let total: u64 = sizes.iter().sum();
             let mut rows: Vec<(Option<i64>, Option<String>, Option<i64>)> = (0..total)
